@@ -169,5 +169,12 @@ class SpooledTextFile(_io.TextIOBase):
         file = self._file
         self._path = self._get_unused_path()
         newfile = self._file = self._path.open(mode='x+')
-        newfile.write(file.getvalue())
-        newfile.seek(file.tell(), 0)
+        # The position of the memory buffer is a number of characters,
+        # which is not a valid position in a text file on disk
+        # (non-ASCII characters are encoded as multiple bytes).
+        contents = file.getvalue()
+        position_in_contents = file.tell()
+        newfile.write(contents[:position_in_contents])
+        position_in_new_file = newfile.tell()
+        newfile.write(contents[position_in_contents:])
+        newfile.seek(position_in_new_file, 0)
